@@ -262,4 +262,4 @@ var c09 = &vh.Prop[c09Case]{
 
 func init() { registrars = append(registrars, c09.Register) }
 
-func TestC09(t *testing.T) { c09.Check(t, vh.N(20000, 50000)) }
+func TestC09(t *testing.T) { c09.Check(t, vh.N(20000, 30000)) }
